@@ -23,6 +23,8 @@ PRE = 'a = query_bucket("A"); b = query_bucket("B"); '
 PROGRAMS = [
     ("query_bucket", 'RETURN = query_bucket("A");'),
     ("eventcount", 'RETURN = query_bucket_eventcount("A");'),
+    ("query_bucket", PRE + "x = categorize(a, [[['W'], {'regex': '.'}]]); y = tag(a, [['t', {'regex': '.'}]]); z = period_union(a, b); RETURN = query_bucket(\"A\");"),
+    ("eventcount", PRE + 'x = limit_events(a, 0); RETURN = query_bucket_eventcount("A");'),
     ("find_bucket", 'RETURN = query_bucket(find_bucket("B"));'),
     ("filter_keyvals", PRE + 'RETURN = filter_keyvals(a, "app", ["a0"]);'),
     ("exclude_keyvals", PRE + 'RETURN = exclude_keyvals(a, "app", ["a0"]);'),
